@@ -28,8 +28,9 @@ CHECKS = {
          "4 C03", "Coq-verified per-instance checker + engine model correspondence (universal soundness partial)"),
  "C05": ("on the faithful engine model: lub / permutation invariance / monotonicity proved for every hierarchy and "
          "any number of chain arguments (identity and nested covariant contexts, Top/Bottom included), glb for the "
-         "contravariant reading, above/below characterised; remaining contexts and leastness of fix() decided per "
-         "generated case on model and implementation",
+         "contravariant reading, above/below characterised; C05_fix_least: fix() of any single-polarity type binds "
+         "exactly the polarity-appropriate bounds and is below every instantiation within the bounds; explicit fuel "
+         "bounds; remaining argument contexts decided per generated case on model and implementation",
          "4 C05", "Coq proof by induction over the argument list on the engine model + correspondence + oracle"),
  "C06": ("declarative Fits (exists instantiation with x <= alt) and a matcher proved equivalent for linear "
          "alternatives (refuted for non-linear), monotone, = Sub for concrete alternatives; engine model proved to "
@@ -105,7 +106,9 @@ CHECKS = {
  "C18": ("schedules proved to only permute the pending constraints (C18_permute); the property itself is REFUTED on "
          "the faithful model and on the code for the error kind (C18_refuted) and for the result when elimination "
          "constraints interact (C18_refuted_result) - two known findings, a third instance (match on bounded "
-         "variables) was repaired; for every generated program all permutations at every re-check point are imposed on "
+         "variables) was repaired; where it is true it is proved: C18_pure_checks_partial - for programs whose "
+         "constraints are subtype constraints of a variable against a base type, any two schedules give the same "
+         "success/failure, failing command, values and store (error kinds equal up to TypeMismatch/ConstraintViolation); for every generated program all permutations at every re-check point are imposed on "
          "/repo through the guarded hook and on the model, which must agree per schedule on the full store; divergences "
          "outside the two recorded classes are violations",
          "4 C18", "Coq refutation witnesses + permutation lemma (partial) + exhaustive schedule search via hook + per-schedule correspondence"),
